@@ -440,6 +440,59 @@ func monC07(c *drv.Ctx) {
 	// (2b) a load that fails because a key is longer than 4 GiB must change nothing (the key is a view
 	// of untouched zero pages: address space, not memory)
 	if !c.Slow() && c.Flavour == "plain" {
+		// (2b') a load that fails half way with a panic the caller recovers from (the runtime refuses a key buffer
+		// of 2^48 bytes: 70000 distinct keys just below the 4 GiB limit, all views of one untouched mapping) is a
+		// failed load too
+		c.Stage("failed-load-that-panics", 2, true, func(cs *drv.Case) {
+			huge := make([]byte, 1<<32)
+			big := unsafe.String(&huge[0], 1<<32-1)
+			want := map[string]int{"alpha": 1, "beta": 2, "": 3}
+			wantS := map[string]string{"alpha": "value-of-alpha", "beta": "value-of-beta", "": "value-of-empty"}
+			im := strmap.NewFromMap(want)
+			sm := strmap.NewStr2StrFromMap(wantS)
+			n := 70000
+			kk := make([]string, n)
+			vi := make([]int, n)
+			vs := make([]string, n)
+			for i := range kk {
+				kk[i] = big[:len(big)-i]
+				vi[i] = -1
+				vs[i] = "x"
+			}
+			outcome := func(f func() error) (res string) {
+				defer func() {
+					if p := recover(); p != nil {
+						res = "panic: " + fmt.Sprint(p)
+					}
+				}()
+				if err := f(); err != nil {
+					return "error: " + err.Error()
+				}
+				return "accepted"
+			}
+			var o1, o2 string
+			if cs.Idx == 0 {
+				o1 = outcome(func() error { return im.LoadFromSlice(kk, vi) })
+				o2 = outcome(func() error { return sm.LoadFromSlice(kk, vs) })
+			} else {
+				// a second refused load right after the first
+				o1 = outcome(func() error { return im.LoadFromSlice(kk, vi) })
+				outcome(func() error { return sm.LoadFromSlice(kk, vs) })
+				o2 = outcome(func() error { return sm.LoadFromSlice(kk[:n-1], vs[:n-1]) })
+			}
+			cs.Desc = M{"keys": n, "key_len": len(big), "strmap_outcome": o1, "str2str_outcome": o2}
+			if o1 == "accepted" || o2 == "accepted" {
+				cs.C.DontCare("load-of-2^48-key-bytes-accepted")
+				return
+			}
+			probes := []string{"alpha", "beta", "", "x", "alph", "value-of-alpha"}
+			if !c07CheckInt(cs, im, want, probes, "after a load that failed with "+o1) || !c07CheckS2S(cs, sm, wantS, probes, "after a load that failed with "+o2) {
+				return
+			}
+			cs.Count(true, "panicking-load", cs.Idx)
+			cs.C.Obs("failed loads checked", 1)
+			cs.C.Obs("loads that failed with a recovered panic", 1)
+		})
 		c.Stage("failed-load-oversized-key", 4, true, func(cs *drv.Case) {
 			huge := make([]byte, 1<<32+1)
 			hk := unsafe.String(&huge[0], len(huge))
